@@ -142,3 +142,35 @@ func c01alltypes(c *core.Ctx) {
 	})
 	c.Check(bad == "", R, "CheckRootSchema:types-loop", c.P.Pos(loop.Pos()), "every registered type is checked on every path", "some registered types are not checked: "+bad)
 }
+
+// c01charlen: string length rules count characters.
+func c01charlen(c *core.Ctx) {
+	const R = "C01.charlen"
+	c.Rule(R, "MinLength.Validate and MaxLength.Validate measure the decoded example with utf8.RuneCount / utf8.RuneCountInString (characters), not with Len()/len() (UTF-8 bytes): `\"é\" // {maxLength: 1}` is one character long. The generated OpenAPI minLength/maxLength count characters too, so a byte count makes the schema's own example invalid for its OpenAPI schema")
+	c.Floor(R, 2)
+	for _, tn := range []string{"MinLength", "MaxLength"} {
+		fn := "(notations/jschema/ischema/constraint." + tn + ").Validate"
+		d := c.P.FindDecl(fn)
+		if d == nil {
+			c.Unresolved(R, fn)
+			continue
+		}
+		runes, bytesLen := false, false
+		ast.Inspect(d.Decl.Body, func(n ast.Node) bool {
+			call, ok := n.(*ast.CallExpr)
+			if !ok {
+				return true
+			}
+			name := core.FullName(core.Callee(d.Pkg, call))
+			switch {
+			case name == "unicode/utf8.RuneCount" || name == "unicode/utf8.RuneCountInString":
+				runes = true
+			case name == "(bytes.Bytes).Len" || core.ExprStr(call.Fun) == "len":
+				// a byte length that is not the argument of RuneCount
+				bytesLen = true
+			}
+			return true
+		})
+		c.Check(runes && !bytesLen, R, fn, c.P.Pos(d.Decl.Pos()), fn+" counts characters", core.F("the length is taken in bytes (rune count used: %v, byte length used: %v): non-ASCII examples get the wrong verdict", runes, bytesLen))
+	}
+}
